@@ -1437,5 +1437,30 @@ def replay(pid, path, V):
         print(f"replayed 3 runs of {job.get('id')}: " + ("violation reproduced" if rc else
               "no violation on this tree in these runs (schedule-dependent cases need the check's own perturbation)"))
         return rc
-    print("(no re-runnable job in this replay file: component behaviours are replayed by the check itself)")
+    if isinstance(rp, dict) and isinstance(rp.get("behaviour"), dict) and "h" in rp["behaviour"]:
+        # a behaviour of comp/Start.tla: enforce its arrival order on the real Start again (3 runs), judge with StartCheck
+        import replay_start as rs
+        from common import run_jobs, split_trace_files, validate_parallel
+        wd = workdir(pid + "_replay")
+        beh = rp["behaviour"]
+        jobs = [dict(rs.behaviour_to_job(f"b{i}", beh), gate_timeout_ms=8000) for i in range(3)]
+        results, traces = run_jobs(jobs, wd, timeout=300, nproc=1)
+        recs = []
+        for tf in traces:
+            for jid, h, ev in rs.real_histories(tf):
+                res = results.get(jid, {})
+                if ev == "hang" or res.get("hang") or not jobsuite.job_ok(res):
+                    V.add_violation({"prop": pid, "kind": "job_hang_or_panic", "job": jid})
+                    continue
+                recs += [{"ev": "case", "id": jid, "n": beh["n"], "h": h, "hm": beh["h"],
+                          "enf": res.get("gate_timeouts", 0) == 0}, {"ev": "done", "id": jid}]
+        files = split_trace_files(recs, wd, "startcheck", max_events=600)
+        viols, _, _, _ = validate_parallel("StartCheck", files, wd)
+        for v in viols:
+            if v["prop"] == pid:
+                V.add_violation(v)
+        rc = V.finish(dry=True)
+        print("replayed the behaviour 3 times on the real Start: " + ("violation reproduced" if rc else "no violation on this tree"))
+        return rc
+    print("(no re-runnable job in this replay file: this kind of case is replayed by the check itself)")
     return 0
